@@ -83,6 +83,7 @@ fn m_record(variant: u8, x: &Enr) -> Option<Enr> {
                     2 => util::enr4(&k, 9, m_addr()),
                     3 => util::enr4(&k, 9, x.udp4_socket().unwrap().into()), // X's address
                     6 => util::enr4(&k, 0, m_addr()),                        // older than the record V's application knows
+                    7 => util::enr4(&k, 0, x.udp4_socket().unwrap().into()), // older, and advertising X's address
                     _ => util::enr(&k, &util::EnrSpec { seq: 9, ..Default::default() }), // no address
                 }
             })
@@ -117,6 +118,9 @@ pub struct Attack {
     /// the crafted peer also speaks from a second port of its own IP address, and its own message
     /// datagrams can be presented from there (C02: a datagram is bound to the address of its session)
     pub two_ports: bool,
+    /// genuine message datagrams of X (e.g. the packet that made V challenge X) may be presented
+    /// again from M's address
+    pub replay_msgs: bool,
 }
 
 fn challenges_of(w: &World) -> Vec<(discv5::NodeAddress, Vec<u8>)> {
@@ -187,7 +191,7 @@ impl Driver for Attack {
                 for r in &self.handshake_records {
                     // quick tier: the records that matter for the claimed identity (X: none, M's own at
                     // seq 1 and seq 9, X's genuine one; M: none, its own, with X's address, an older one; E: none, M's)
-                    if !self.compat && ((cl == 0 && !matches!(*r, 0 | 1 | 2 | 5)) || (cl == 1 && !matches!(*r, 0 | 1 | 3 | 6)) || (cl == 2 && !matches!(*r, 0 | 1))) {
+                    if !self.compat && ((cl == 0 && !matches!(*r, 0 | 1 | 2 | 5)) || (cl == 1 && !matches!(*r, 0 | 1 | 3 | 6 | 7)) || (cl == 2 && !matches!(*r, 0 | 1))) {
                         continue;
                     }
                     for s in &self.handshake_sigs {
@@ -227,6 +231,11 @@ impl Driver for Attack {
                         out.push((Ev::Ext(code(3, (ai as u32) << 8 | 4)), 1));
                     }
                 }
+            }
+        }
+        if self.replay_msgs {
+            for d in w.log.iter().filter(|d| d.dst == w.nodes[V].addr && d.kind == 0 && d.origin == X as i32) {
+                out.push((Ev::Ext(code(4, (d.seq as u32) << 8 | 1)), 1));
             }
         }
         if self.replays {
@@ -330,7 +339,7 @@ impl Driver for Attack {
                                 w.proved.insert((claim.raw(), addr.socket_addr));
                                 // a genuine handshake of M carrying one of its own records: the PING
                                 // enclosed in it must reach V's application in this very step
-                                if (1..=4).contains(&rec) || rec == 6 {
+                                if (1..=4).contains(&rec) || rec == 6 || rec == 7 {
                                     w.scratch.push(("expect-request".into(), addr.socket_addr.to_string().into_bytes()));
                                 }
                             }
@@ -617,6 +626,9 @@ pub fn configs(thorough: bool) -> Vec<(String, HCfg)> {
         ("m-two-ports".to_string(), base(vec![Req { from: 0, to: 8, body: Body::Ping, with_enr: false }], 1)),
         // the crafted peer has a session and its first request is still held by V's application
         ("m-session-request-held".to_string(), base(vec![], 1)),
+        // X dials V; the application answers whenever it likes; X's own datagrams may be presented
+        // again from M's address (C02: a datagram is bound to the address it came from)
+        ("x-dials-v-replayed".to_string(), HCfg { free_app_timing: true, ..base(vec![Req { from: 1, to: 0, body: Body::Ping, with_enr: true }], 1) }),
         ("v-rekeys-x".to_string(), HCfg { allow_restart: vec![1], ..base(vec![Req { from: 0, to: 1, body: Body::Ping, with_enr: true }, Req { from: 0, to: 1, body: Body::Talk, with_enr: true }], 1) }),
     ];
     if thorough {
@@ -640,7 +652,7 @@ pub fn prefix_of(world: &str) -> Vec<Ev> {
 }
 
 pub fn driver(thorough: bool) -> Attack {
-    Attack { handshake_records: if thorough { vec![0, 1, 2, 3, 4, 5, 6] } else { vec![0, 1, 2, 3, 5, 6] }, handshake_sigs: if thorough { vec![0, 1, 2, 3] } else { vec![0, 1, 2] }, replays: true, ways: true, msgs: true, halves: thorough, compat: thorough, two_ports: false }
+    Attack { handshake_records: if thorough { vec![0, 1, 2, 3, 4, 5, 6, 7] } else { vec![0, 1, 2, 3, 5, 6, 7] }, handshake_sigs: if thorough { vec![0, 1, 2, 3] } else { vec![0, 1, 2] }, replays: true, ways: true, msgs: true, halves: thorough, compat: thorough, two_ports: false, replay_msgs: false }
 }
 
 pub fn regression_holds(payload: &serde_json::Value, prop: &str) -> bool {
@@ -654,6 +666,7 @@ pub fn regression_holds(payload: &serde_json::Value, prop: &str) -> bool {
     let monitors = Monitors { c03: prop == "C03", c04: prop == "C04", c13: prop == "C13", c15: false, c19: false, c20: prop == "C14" || prop == "C20" };
     let mut d = driver(true);
     d.two_ports = name == "m-two-ports";
+    d.replay_msgs = name == "x-dials-v-replayed";
     rt::run(run_history_with(&cfg, monitors, &hist, true, &d)).violation.is_none()
 }
 
@@ -668,6 +681,7 @@ pub fn replay(payload: &serde_json::Value, prop: &str) {
     let monitors = Monitors { c03: prop == "C03", c04: prop == "C04", c13: prop == "C13", c15: false, c19: false, c20: prop == "C14" || prop == "C20" };
     let mut d = driver(true);
     d.two_ports = name == "m-two-ports";
+    d.replay_msgs = name == "x-dials-v-replayed";
     rt::run(crate::hsim::replay_verbose(&cfg, monitors, &hist, &d));
 }
 
@@ -683,7 +697,7 @@ pub fn explore(prop: &str, thorough: bool, budget_s: f64, k_max: u32) -> (mc::St
     if prop == "C19" {
         // nonce reuse under replayed / repeated handshakes: the crafted peer alone, genuine
         // handshakes with a verifiable and an unverifiable record, garbage, replays; worst-case RNG
-        d = Attack { handshake_records: vec![1, 3], handshake_sigs: vec![0], replays: true, ways: false, msgs: true, halves: false, compat: false, two_ports: false };
+        d = Attack { handshake_records: vec![1, 3], handshake_sigs: vec![0], replays: true, ways: false, msgs: true, halves: false, compat: false, two_ports: false, replay_msgs: false };
         cfgs.retain(|(n, _)| n == "x-silent" || (thorough && n == "v-dials-m"));
         for (_, c) in cfgs.iter_mut() {
             c.force_nonce = true;
@@ -728,11 +742,16 @@ pub fn explore(prop: &str, thorough: bool, budget_s: f64, k_max: u32) -> (mc::St
             if name == "m-two-ports" && prop != "C02" {
                 continue;
             }
+            if name == "x-dials-v-replayed" && prop != "C02" {
+                continue;
+            }
             if name == "m-session-request-held" && prop != "C20" && prop != "C14" {
                 continue;
             }
             // worlds added for one mechanism each get the moves that mechanism needs (quick tier)
-            let d_world = if name == "m-session-request-held" {
+            let d_world = if name == "x-dials-v-replayed" {
+                Attack { handshake_records: vec![], handshake_sigs: vec![], replays: true, ways: false, msgs: false, halves: false, replay_msgs: true, ..d.clone() }
+            } else if name == "m-session-request-held" {
                 Attack { handshake_records: vec![1], handshake_sigs: vec![0], replays: false, ways: false, msgs: true, halves: false, ..d.clone() }
             } else if name == "m-two-ports" {
                 // hellos and a genuine handshake from the second port, M's recorded datagrams from there
